@@ -106,15 +106,30 @@ def check_optional_predicate(S, owner, rule):
     if iot is None:
         rule.bad(V(rule.id, "<anchor>", "missing:%s::is_optional_type" % owner, "anchor not found"))
         return
-    out = []
-    collect_comparisons(iot.body, [], out)
-    txt = " ".join(expr_text(e) for e in walk_block(iot.body))
+    # decided on the type-checked body (a shared helper the two parsers delegate to is spliced in): every accepting path tests the *last* path
+    # segment's identifier against "Option" and nothing else; no text test on the rendered type
+    from predtable import accept_paths, positive
+    import common as _c
+    P = _P_holder.get("P")
+    mf = P.find("%s::is_optional_type" % owner) if P is not None else []
     texty = [e for e in walk_block(iot.body) if e.get("k") == "mcall" and e["method"] in ("starts_with", "contains", "ends_with", "find")]
-    if {l for _, _, l in out} == {"Option"} and "segments.last()" in txt and not texty:
+    aps = accept_paths(P, mf[0], "true") if mf else None
+    okp = bool(aps)
+    seen = set()
+    for a_ in aps or []:
+        segs = {k_: positive(v_) for k_, v_ in a_["seg"].items()}
+        lastk = [k_ for k_ in segs if k_ == "last" or (isinstance(k_, str) and k_.startswith("param:"))]
+        seen |= {v_ for v_ in segs.values() if v_}
+        if a_["other"] or a_["opaque_value"] or not lastk or segs[lastk[0]] != "Option" or [k_ for k_ in a_.get("kind", []) if not (k_[1] == "Path")]:
+            okp = False
+    if okp and seen == {"Option"} and not texty:
         rule.ok("%s::is_optional_type: last segment == \"Option\"" % owner)
     else:
-        rule.bad(V(rule.id, "%s::is_optional_type" % owner, "predicate:%s" % sorted({l for _, _, l in out} | {"%s(..)" % e["method"] for e in texty}),
-                   "optionality is decided by %s%s, not by the last path segment being `Option`" % (out, " and text tests %s" % [expr_text(e)[:40] for e in texty] if texty else "")))
+        rule.bad(V(rule.id, "%s::is_optional_type" % owner, "predicate:%s" % sorted(seen | {"%s(..)" % e["method"] for e in texty}),
+                   "optionality is decided by %s%s, not by the last path segment being `Option`" % (sorted(seen), " and text tests %s" % [expr_text(e)[:40] for e in texty] if texty else "")))
+
+
+_P_holder = {}
 
 
 def check_naming_adds_no_literal(S, rule):
@@ -144,6 +159,7 @@ def check_naming_adds_no_literal(S, rule):
 def check(ctx):
     P = ctx.P
     S = ctx.S
+    _P_holder["P"] = P
     ev = SVEval(S)
     T = Templates(S)
     rules = []
@@ -167,7 +183,7 @@ def check(ctx):
             r1.bad(V(r1.id, "CommandParser::is_tauri_parameter_type", "unclassified-context:too-many-paths", "the predicate is not a small decision list any more"))
             aps = []
         for a_ in aps:
-            klass, name_ = classify(a_)
+            klass, name_ = classify(a_, generic_arg_tests=False)     # State<'_, T>: which kind of argument comes first says nothing about the name
             if name_ in ("tauri", "ipc"):
                 continue
             table.setdefault(klass, set())
